@@ -84,6 +84,17 @@ func (timeconvE2ESlice) Corpus() [][]string {
 	if fillDemux(ts) == nil {
 		out = append(out, mk(ts))
 	}
+	// F17: one segment of 7 fragments × 2 tracks = 14 part-tracks (> clientMaxTracksPerStream + number of tracks):
+	// the stream processor collects completion signals only after pushing every part-track
+	dl := &e2eCase{format: "fmp4", layout: "single", mode: "vod",
+		tracks: [][]e2eTrack{{{0, 1, 90000, "h264", "H264", true, true}, {0, 2, 48000, "aac", "MPEG4Audio", false, true}}},
+		segs:   [][]*e2eSeg{{{stream: 0, n: 0}}}}
+	for p := 0; p < 7; p++ {
+		dl.segs[0][0].pts = append(dl.segs[0][0].pts,
+			e2ePT{p, 1, int64(1000 + p*90), []tcSample{{90, 0, int64(2*p + 1)}}},
+			e2ePT{p, 2, int64(533 + p*48), []tcSample{{48, 0, int64(2*p + 2)}}})
+	}
+	out = append(out, mk(dl))
 	return out
 }
 
